@@ -82,6 +82,11 @@ CHECKS = {
    text="Specification -> code, exhaustive over the enumerated domain: ApiTotal.tla lists every exported method of Tx (57, including the on-disk lookup helpers) and DB (Update, View, Begin, Merge, Backup, Close) with its parameter kinds, and TLC emits one call per method x lifecycle state (writable / read-only transaction, committed, rolled back, the same after the database was closed; database open / closed) x tuple of boundary-heavy argument tokens ((bucket,key) pairs with nil, empty, separator-containing and missing names; ints MinInt64, -5..5, MaxInt64; NaN and infinite scores; invalid regexp; nil and odd option structs; extreme TTL/timestamps): 5 900 calls quick, 12 494 thorough. The replayer executes each on a preloaded multi-file database under recover() and a watchdog, follows every call in a writable transaction by Commit, and records outcome classes; TLC (ApiTotalTrace) accepts a call iff it returned, the Commit returned, and calls on finished transactions or a closed database returned an error. Panics recorded by the random drivers (fail, merge, intx families) count too.",
    note="Trusts TLC and the replayer's recover()/watchdog. Open() with odd Options is outside the statement (methods of DB and Tx).",
    technique="TLC-enumerated calls (ApiTotal.tla) replayed into the code + TLA+ trace validation of the outcome classes"),
+ "C22": dict(
+   cat="model_checking", design="DESIGN.md section 6 C22",
+   text="Specification -> code, exhaustive: ModeCompat.tla enumerates all 54 combinations (index mode that created the directory) x (directory state: absent, freshly opened, written over several segments, merged, crashed in the middle of a commit, crashed right after the creation of a new data file - the last two built as crash images from hook-recorded file mutations) x (index mode used to reopen); the replayer builds each with FileIO and MMap and several generated contents, opens it with the reopen mode and records the error flag, a digest of the directory tree before/after, and a digest of the full observation under the creating mode (on a copy) and under the reopen mode. TLC (ModeCompat!Admitted) requires: data of the other class -> error and identical directory digest; RAM <-> RAM on key/value data -> success and identical observation digest; same mode -> success and identical observation; no data yet -> unconstrained.",
+   note="Digests are computed by the replayer (sha1); equality is judged by TLC. Trusts TLC and the replayer.",
+   technique="TLC-enumerated combinations (ModeCompat.tla) replayed into the code + TLA+ trace validation"),
  "C01": dict(
    cat="model_checking", design="DESIGN.md section 6 C01",
    text="Trace validation: seeded random KV histories (multi-bucket, TTL on both sides of expiry, segments of 128-512 bytes so nearly every transaction rotates, reopen) are executed on the real library in HintKeyValAndRAMIdxMode and HintKeyAndRAMIdxMode x FileIO and MMap, every call is recorded, and TLC accepts the trace only if every Get/GetAll/RangeScan/PrefixScan/PrefixSearchScan result equals the KVSpec ordered-map-with-TTL result on the specification state (Nuts.tla). The API-grain design is model-checked exhaustively for a small universe (NutsMC_kv.cfg).",
